@@ -659,6 +659,43 @@ func c15Jobs() []sjob {
 			}
 			x.obs = transcriptOf(key, r1)
 		}},
+		{"H19 two connections, same user, one command authorization each; the user's rules come from its own list and two groups, merged into a slice with spare capacity", func(x *sx) {
+			e2 := newREnv(defaultSecrets(), "")
+			for i := range e2.Cfg.Users {
+				if e2.Cfg.Users[i].Name == "own" {
+					cmds := make([]config.Command, 0, 8)
+					cmds = append(cmds, config.Command{Name: "configure", Match: []string{"terminal"}, Action: config.PERMIT})
+					e2.Cfg.Users[i].Commands = cmds
+					e2.Cfg.Users[i].Groups = append(e2.Cfg.Users[i].Groups,
+						config.Group{Name: "h19-a", Commands: []config.Command{{Name: "ping", Action: config.PERMIT}}},
+						config.Group{Name: "h19-b", Commands: []config.Command{{Name: "traceroute", Action: config.PERMIT}}})
+				}
+			}
+			w := newSWorldR(e2.Cfg, nil)
+			w.serve()
+			var r1, r2 [][]byte
+			var wg vsyncrt.WaitGroup
+			wg.Add(2)
+			c1 := w.W.NewConn(1, srvx.Addr4(10, 0, 0, 1, 1001))
+			c2 := w.W.NewConn(2, srvx.Addr4(10, 0, 0, 2, 1002))
+			vsyncrt.Go(func() {
+				sclient(w, c1, [][]byte{authorPkt(key, "own", 1, "service=shell", "cmd=traceroute")}, &r1, true)
+				wg.Done()
+			})
+			vsyncrt.Go(func() {
+				sclient(w, c2, [][]byte{authorPkt(key, "own", 2, "service=shell", "cmd=reload")}, &r2, true)
+				wg.Done()
+			})
+			wg.Wait()
+			w.shutdown()
+			if len(r1) != 1 || replyStatus(key, r1[0], 2) != 1 {
+				x.fail("H19/functional", "client 1: a command the second group permits was not answered PASS_ADD")
+			}
+			if len(r2) != 1 || replyStatus(key, r2[0], 2) != 0x10 {
+				x.fail("H19/functional", "client 2: a command no rule permits was not answered FAIL")
+			}
+			x.obs = transcriptOf(key, r1) + transcriptOf(key, r2)
+		}},
 		{"H8 two connections, same user, one session authorization each", func(x *sx) {
 			w := newSWorldR(e.Cfg, nil)
 			w.serve()
